@@ -218,7 +218,7 @@ class IsaGen:
             # suffixes never equal an operand token: `call q` would otherwise also match a glued rule `callq`
             # (blanks inside a rule's literal run are skipped by the character-level matcher; C07's directed case)
             mnem = rng.choice(["jmp", "bra", "call", "ldi", "b"]) + rng.choice(["", "", "_w", "_q"])
-            style = rng.choice(["typed", "assert", "rel", "posfence", "boolconst", "lateconst"])
+            style = rng.choice(["typed", "assert", "rel", "posfence", "boolconst", "lateconst", "zeros"])
             base = len(self.rules)
             op = rng.getrandbits(8)
             if style == "typed":
@@ -235,6 +235,17 @@ class IsaGen:
                 self.rules.append({"pat": [("lit", mnem)],
                                    "prod": ("tern", ("var", 0, [flag]), lit_sized(rng, 24), lit_sized(rng, 8)),
                                    "size": 24, "name": "c%d" % len(self.rules)})
+            elif style == "zeros":
+                # padding whose *size* depends on the operand while its numeric value is always zero: a pass in which
+                # such an item changes moves the following labels without changing any encoding's value
+                lim = rng.choice([0x4, 0x8, 0x10, 0x20])
+                sizes = rng.choice([(8, 24), (8, 16), (16, 32)])
+                zero = lambda n: ("int", 0, n, "0x" + "0" * (n // 4))
+                small = ("block", [("call", "assert", [("bin", "<", ("var", 0, ["a"]), num(lim))]), zero(sizes[0])])
+                self.rules.append({"pat": [("lit", mnem), ("param", "a", None)], "prod": small, "size": sizes[0],
+                                   "name": "c%d" % len(self.rules)})
+                self.rules.append({"pat": [("lit", mnem), ("param", "a", None)], "prod": zero(sizes[1]), "size": sizes[1],
+                                   "name": "c%d" % len(self.rules)})
             elif style == "lateconst":
                 # two unconditional candidates; the smaller one adds a global constant that the program may define
                 # from a data file *after* its uses (statically known, yet unknown while the first pass visits the
